@@ -126,16 +126,17 @@ package handlers
 //@   ghost-init g_contentStr == ""
 //@   ghost-init g_srcStr == ""
 //@   ghost-init g_count == 0
+//@   ghost-init g_perc == 0
 //@   on-recv h.lines effect g_kind == 3
 //@   on-recv h.lines effect g_contentStr == content(elem.Content)
 //@   on-recv h.lines effect g_count == elem.Count
+//@   on-recv h.lines effect g_perc == elem.TransmittedPerc
 //@   on-recv h.lines effect g_srcStr == elem.SourceID
 //@   on-recv h.serverMessages effect g_kind == 1
 //@   on-recv h.maprMessages effect g_kind == 2
 //@   ensures [remainder-first] implies(len(old(h.readBuf.content)) > 0, g_kind == 0 && str(p[0:n]) + h.readBuf.content == old(h.readBuf.content))
 //@   ensures [nothing-lost] implies(len(old(h.readBuf.content)) == 0 && g_kind == 3 && h.plain, str(p[0:n]) + h.readBuf.content == g_contentStr + "\xac")
-//@   ensures [labelled-line-prefix] implies(len(old(h.readBuf.content)) == 0 && g_kind == 3 && !h.plain, hasPrefix(str(p[0:n]) + h.readBuf.content, "REMOTE|" + h.hostname + "|"))
-//@   ensures [labelled-line-suffix] implies(len(old(h.readBuf.content)) == 0 && g_kind == 3 && !h.plain, hasSuffix(str(p[0:n]) + h.readBuf.content, "|" + itoa(g_count) + "|" + g_srcStr + "|" + g_contentStr + "\xac"))
+//@   ensures [labelled-line-frame] implies(len(old(h.readBuf.content)) == 0 && g_kind == 3 && !h.plain, str(p[0:n]) + h.readBuf.content == "REMOTE|" + h.hostname + "|" + ufs_fmt_3d(g_perc) + "|" + itoa(g_count) + "|" + g_srcStr + "|" + g_contentStr + "\xac")
 //@   at-call WriteString@line.Content.String() [content-has-no-delimiter] !contains(arg1, "\xac")
 //@   at-call WriteString@line.Content.String() [plain-content-not-hidden] implies(h.plain, !hasPrefix(arg1, "."))
 //@   at-call WriteString@"SERVER" [plain-no-extra-bytes] !h.plain
